@@ -436,6 +436,8 @@ def replay_reused_renderer():
 
 
 def check(rep, tier):
+    from vlib import statecensus
+    statecensus.obligations(rep, 'C06', 'render')
     stateless_obligation(rep, 'C06')
     rep.dropped = 'nothing is extracted: the real prepare_select / to_expression are run on every element of each finite decision domain; SQLAlchemy element trees are inspected'
     rep.assume('SQLAlchemy element semantics (Join.isouter/full; desc/nulls_first/nulls_last modifiers; CompoundSelect.keyword; operator objects) as documented',
